@@ -79,3 +79,19 @@ Proof.
   - exact (source_twinness_invariant _ _ _ PB).
 Qed.
 Print Assumptions C04_source_pair_global_invariant.
+
+Theorem C04_source_distance_invariant B r p : Permutation p (seq 0 (rn r)) ->
+  (forall ve, In ve (source_distance B) -> forall i, (i < rn r)%nat ->
+     vden (to_graph (permute r p)) (fst ve) i = vden (to_graph r) (fst ve) (nth i p 0%nat)) /\
+  sden (to_graph (permute r p)) (gen_nsi_average_path_length B) =
+  sden (to_graph r) (gen_nsi_average_path_length B) /\
+  sden (to_graph (permute r p)) (gen_nsi_global_efficiency B) =
+  sden (to_graph r) (gen_nsi_global_efficiency B).
+Proof.
+  intros Hp. pose proof (permute_is_pullback r p Hp) as PB. split.
+  - intros ve Hin i Hi.
+    exact (source_invariant Ptrue _ (source_distance_denote B) ve Hin _ _
+             (fun i => nth i p 0%nat) PB i Hi I I).
+  - exact (source_distance_global_invariant _ _ _ B PB).
+Qed.
+Print Assumptions C04_source_distance_invariant.
